@@ -110,17 +110,13 @@ Definition pat_of (s : str) : option pat :=
   match parse_expr s with Some (p, _) => Some p | None => None end.
 
 (** wildcard names: two expressions with the same pattern must use the same key
-    names (tree.go addNode: "wildcard keys differ"); for a pattern ending in a
-    free wildcard only the name of the free wildcard must agree ("free wildcard
-    name doesn't match"; the other names are overwritten, finding C03-F3) *)
-Definition ends_catchall (p : pat) : bool :=
-  match rev p with C :: _ => true | _ => false end.
-
+    names (tree.go addNode: "wildcard keys differ" at the end of the path and, since
+    fix: commit 20f92b3 for finding C03-F3, also for a path ending in a free
+    wildcard; "free wildcard name doesn't match" is the special case of the last
+    name) *)
 Definition keys_compat (a b : str) : bool :=
   match parse_expr a, parse_expr b with
-  | Some (p, ka), Some (q, kb) =>
-    negb (pat_eqb p q) ||
-    (if ends_catchall p then str_eqb (last ka []) (last kb []) else list_eqb str_eqb ka kb)
+  | Some (p, ka), Some (q, kb) => negb (pat_eqb p q) || list_eqb str_eqb ka kb
   | _, _ => true
   end.
 
@@ -254,14 +250,13 @@ Proof.
   unfold keys_compat.
   destruct (parse_expr a) as [[p ka]|]; destruct (parse_expr b) as [[q kb]|]; try reflexivity.
   rewrite (pat_eqb_sym p q). destruct (pat_eqb q p) eqn:E; simpl; [|reflexivity].
-  apply pat_eqb_eq in E. subst q.
-  destruct (ends_catchall p); [apply str_eqb_sym | apply list_eqb_sym; apply str_eqb_sym].
+  apply list_eqb_sym. apply str_eqb_sym.
 Qed.
 
 Lemma keys_compat_refl a : keys_compat a a = true.
 Proof.
   unfold keys_compat. destruct (parse_expr a) as [[p ka]|]; [|reflexivity].
-  rewrite pat_eqb_refl. simpl. destruct (ends_catchall p); [apply str_eqb_refl|].
+  rewrite pat_eqb_refl. simpl.
   apply list_eqb_spec; [apply str_eqb_eq | reflexivity].
 Qed.
 
